@@ -891,4 +891,223 @@ theorem run_perm_stable (p : Key) : ∀ (post : List (Nat × Event)) (s : Node),
     rw [ih _ (fun y hy => h y (List.mem_cons_of_mem _ hy))]
     exact step_perm_stable t s e p (h (t, e) (by simp))
 
+/-! ### every tree token has a path to the genesis hash -/
+
+theorem Rooted.mono {gen : Hash} {els els' : List Token} (hsub : ∀ x ∈ els, x ∈ els') {x : Token}
+    (h : Rooted gen els x) : Rooted gen els' x := by
+  induction h with
+  | base hx hp => exact Rooted.base (hsub _ hx) hp
+  | step hx hy hid _ ih => exact Rooted.step (hsub _ hx) (hsub _ hy) hid ih
+
+def TreeRooted (gen : Hash) (t : Tree) : Prop := ∀ x ∈ t.elements, Rooted gen t.elements x
+
+/-- appending a token whose predecessor is the genesis hash or a stored token keeps the tree rooted; elements only grow -/
+theorem appendReact_rooted (gen : Hash) : ∀ (fuel : Nat) (t : Tree) (tok : Token),
+    TreeRooted gen t → (tok.prev = gen ∨ ∃ y ∈ t.elements, y.id = tok.prev) →
+    TreeRooted gen (appendReact fuel t tok) ∧ (∀ x ∈ t.elements, x ∈ (appendReact fuel t tok).elements) ∧
+      tok ∈ (appendReact fuel t tok).elements := by
+  intro fuel
+  have base1 : ∀ (t : Tree) (tok : Token) (u : List Token), TreeRooted gen t →
+      (tok.prev = gen ∨ ∃ y ∈ t.elements, y.id = tok.prev) →
+      TreeRooted gen { elements := t.elements ++ [tok], unchained := u } := by
+    intro t tok u ht hp x hx
+    have hsub : ∀ z ∈ t.elements, z ∈ t.elements ++ [tok] := fun z hz => List.mem_append_left _ hz
+    rcases List.mem_append.mp hx with hx | hx
+    · exact (ht x hx).mono hsub
+    · simp at hx; subst hx
+      rcases hp with hp | ⟨y, hy, hid⟩
+      · exact Rooted.base (by simp) hp
+      · exact Rooted.step (by simp) (hsub y hy) hid ((ht y hy).mono hsub)
+  induction fuel with
+  | zero =>
+    intro t tok ht hp
+    simp only [appendReact]
+    exact ⟨base1 t tok t.unchained ht hp, fun x hx => List.mem_append_left _ hx, by simp⟩
+  | succ n ih =>
+    intro t tok ht hp
+    have gen' : ∀ (l : List Token) (acc : Tree), TreeRooted gen acc → tok ∈ acc.elements →
+        (∀ r ∈ l, r.prev = tok.id) →
+        TreeRooted gen (l.foldl (fun acc r => if (acc.find? r.id).isSome then acc else appendReact n acc r) acc) ∧
+        (∀ x ∈ acc.elements, x ∈ (l.foldl (fun acc r => if (acc.find? r.id).isSome then acc
+            else appendReact n acc r) acc).elements) := by
+      intro l
+      induction l with
+      | nil => intro acc h _ _; exact ⟨h, fun x hx => hx⟩
+      | cons r rest ihl =>
+        intro acc h htok hr
+        simp only [List.foldl_cons]
+        by_cases hf : (acc.find? r.id).isSome = true
+        · simp only [hf, if_true]
+          exact ihl acc h htok (fun x hx => hr x (List.mem_cons_of_mem _ hx))
+        · simp only [hf]
+          obtain ⟨a1, a2, _⟩ := ih acc r h (Or.inr ⟨tok, htok, (hr r (by simp)).symm⟩)
+          obtain ⟨b1, b2⟩ := ihl _ a1 (a2 _ htok) (fun x hx => hr x (List.mem_cons_of_mem _ hx))
+          exact ⟨b1, fun x hx => b2 x (a2 x hx)⟩
+    simp only [appendReact]
+    have h1 := base1 t tok (t.unchained.filter (fun x => !(x.prev == tok.id))) ht hp
+    obtain ⟨c1, c2⟩ := gen' (t.unchained.filter (fun x => x.prev == tok.id)) _ h1 (by simp)
+      (fun r hr => by simpa using (List.mem_filter.mp hr).2)
+    exact ⟨c1, fun x hx => c2 x (List.mem_append_left _ hx), c2 tok (by simp)⟩
+
+theorem gather_rooted (k : Key) (gen : Hash) (t : Tree) (tok : Token) (ht : TreeRooted gen t) :
+    TreeRooted gen (gather k gen t tok).1 := by
+  unfold gather
+  split
+  · exact ht
+  · split
+    · exact ht
+    · rename_i hnot
+      split
+      · exact ht
+      · apply (appendReact_rooted gen _ t tok ht _).1
+        by_cases hg : tok.prev = gen
+        · exact Or.inl hg
+        · right
+          cases hf : t.find? tok.prev with
+          | none => simp [hf, hg] at hnot
+          | some y => exact ⟨y, (find?_mem_elements hf).1, (find?_mem_elements hf).2⟩
+
+theorem gatherAll_rooted (k : Key) (gen : Hash) : ∀ (toks : List Token) (t : Tree), TreeRooted gen t →
+    TreeRooted gen (gatherAll k gen t toks).1 := by
+  intro toks
+  induction toks with
+  | nil => intro t ht; simpa [gatherAll] using ht
+  | cons tok rest ih =>
+    intro t ht
+    simp only [gatherAll]
+    exact ih _ (gather_rooted k gen t tok ht)
+
+/-- node invariant: every per-subject tree is rooted in that subject's genesis hash -/
+def TreesRooted (s : Node) : Prop := ∀ k t, lookup k s.trees = some t → TreeRooted (genesisOf s k) t
+
+theorem treeOf_rooted {s : Node} (h : TreesRooted s) (k : Key) : TreeRooted (genesisOf s k) (treeOf s k) := by
+  unfold treeOf
+  cases hl : lookup k s.trees with
+  | none => intro x hx; simp at hx
+  | some t => exact h k t hl
+
+theorem substantiate_trees (s : Node) (p : Key) (msg : Msg) :
+    (substantiate s p msg).1.trees = (subTokens s p msg).1.trees := by
+  simp only [substantiate]
+  split
+  · rfl
+  · split <;> simp [subMds, subAtts]
+
+theorem substantiate_rooted {s : Node} (h : TreesRooted s) (p : Key) (msg : Msg) :
+    TreesRooted (substantiate s p msg).1 := by
+  have hg : ∀ k, genesisOf (substantiate s p msg).1 k = genesisOf s k := by
+    intro k; simp only [genesisOf]; rw [(substantiate_frame s p msg).2.2.2.2.2]
+  intro k t hl
+  rw [hg]
+  rw [substantiate_trees] at hl
+  simp only [subTokens, lookup_insertDict] at hl
+  split at hl
+  · rename_i hk
+    subst hk
+    simp only [Option.some.injEq] at hl
+    subst hl
+    exact gatherAll_rooted _ _ _ _ (treeOf_rooted h _)
+  · exact h k t hl
+
+theorem signPhase_trees (now : Nat) (s1 : Node) (p : Key) (order : List Hash) (c : Bool) :
+    (signPhase now s1 p order c).1.trees = s1.trees ∧ (signPhase now s1 p order c).1.genesis = s1.genesis := by
+  simp only [signPhase]
+  split
+  · obtain ⟨_, _, _, _, _, f6, f7⟩ := signLoop_frame now p (treeOf s1 p) (credentials s1 p order) s1
+    exact ⟨f6, f7⟩
+  · simp
+
+theorem received_rooted (now : Nat) {s : Node} (h : TreesRooted s) (p : Key) (msg : Msg) (order : List Hash) :
+    TreesRooted (receivedDisclosure now s p msg order).1 ∧
+      (receivedDisclosure now s p msg order).1.genesis = s.genesis := by
+  have hsub := substantiate_rooted h p msg
+  have hgen := (substantiate_frame s p msg).2.2.2.2.2
+  have hph := signPhase_trees now (substantiate s p msg).1 p order (substantiate s p msg).2.1
+  have lift : TreesRooted (signPhase now (substantiate s p msg).1 p order (substantiate s p msg).2.1).1 := by
+    intro k t hl
+    rw [hph.1] at hl
+    have := hsub k t hl
+    simpa [genesisOf, hph.2] using this
+  simp only [receivedDisclosure]
+  split
+  · exact ⟨h, rfl⟩
+  · split
+    · exact ⟨hsub, hgen⟩
+    · split <;> exact ⟨lift, hph.2.trans hgen⟩
+
+theorem step_rooted (now : Nat) {s : Node} (h : TreesRooted s) (e : Event) :
+    TreesRooted (step now s e).1 ∧ (step now s e).1.genesis = s.genesis := by
+  cases e with
+  | addKnown l raw padded name key md => exact ⟨h, rfl⟩
+  | disclosure p msg order => exact received_rooted now h p msg order
+  | attestMsg p a =>
+    cases a with
+    | none => exact ⟨h, rfl⟩
+    | some a => simp only [step, onAttest]; split <;> exact ⟨h, rfl⟩
+  | requestMissing p k => exact ⟨h, rfl⟩
+  | advertise to tok md ml => exact ⟨h, rfl⟩
+  | selfAdvertise tok => exact ⟨h, rfl⟩
+
+theorem run_rooted (me : Key) (g : List (Key × Hash)) (evs : List (Nat × Event)) :
+    TreesRooted (run (init me g) evs).1 ∧ (run (init me g) evs).1.genesis = g := by
+  have := run_inv (fun s => TreesRooted s ∧ s.genesis = g)
+    (fun now s e h => ⟨(step_rooted now h.1 e).1, (step_rooted now h.1 e).2.trans h.2⟩) evs (init me g)
+    ⟨by intro k t hl; simp [init, lookup] at hl, rfl⟩
+  exact this
+
+/-! ### object lifetimes: a fresh object over an arbitrary, valid database -/
+
+/-- the state of a newly created object whose database was written by earlier objects -/
+structure Fresh (g : List (Key × Hash)) (s : Node) : Prop where
+  known : s.known = []
+  trees : s.trees = []
+  attested : s.attested = []
+  perms : s.perms = []
+  genesis : s.genesis = g
+  rows : ∀ r ∈ s.attRows, verifies r.att.vk r.authority = true
+  mds : ∀ r ∈ s.mdRows, verifies r.md.vk r.subject = true
+
+theorem Fresh.nodeOk {g : List (Key × Hash)} {s : Node} (h : Fresh g s) : NodeOk s :=
+  ⟨h.rows, h.mds, by intro k t hl; simp [h.trees, lookup] at hl⟩
+
+theorem Fresh.rooted {g : List (Key × Hash)} {s : Node} (h : Fresh g s) : TreesRooted s := by
+  intro k t hl; simp [h.trees, lookup] at hl
+
+theorem init_fresh (me : Key) (g : List (Key × Hash)) : Fresh g (init me g) := by
+  refine ⟨rfl, rfl, rfl, rfl, rfl, ?_, ?_⟩ <;> simp [init]
+
+theorem restartOf_fresh {g : List (Key × Hash)} {s : Node} (hok : NodeOk s) (hg : s.genesis = g) (c : List Hash) :
+    Fresh g (restartOf s c) :=
+  ⟨rfl, rfl, rfl, rfl, hg, hok.rows, hok.mds⟩
+
+theorem run_ok' {s : Node} (h : NodeOk s) (evs : List (Nat × Event)) : NodeOk (run s evs).1 :=
+  run_inv NodeOk (fun now _ e h => step_ok now h e) evs _ h
+
+theorem run_rooted' {g : List (Key × Hash)} {s : Node} (h : TreesRooted s) (hg : s.genesis = g)
+    (evs : List (Nat × Event)) : TreesRooted (run s evs).1 ∧ (run s evs).1.genesis = g :=
+  run_inv (fun s => TreesRooted s ∧ s.genesis = g)
+    (fun now _ e h => ⟨(step_rooted now h.1 e).1, (step_rooted now h.1 e).2.trans h.2⟩) evs s ⟨h, hg⟩
+
+theorem fresh_knownFrom {g : List (Key × Hash)} {s : Node} (h : Fresh g s) : KnownFrom [] s := by
+  intro hh r hl; simp [h.known, lookup] at hl
+
+theorem fresh_permsFrom {g : List (Key × Hash)} {s : Node} (h : Fresh g s) : PermsFrom [] s := by
+  intro p n hl; simp [h.perms, lookup] at hl
+
+/-- any number of lifetimes: each is a history followed by a restart with some reloaded chain -/
+def lifetimes (s : Node) : List (List (Nat × Event) × List Hash) → Node
+  | [] => s
+  | (evs, c) :: rest => lifetimes (restartOf (run s evs).1 c) rest
+
+theorem lifetimes_fresh {g : List (Key × Hash)} : ∀ (ls : List (List (Nat × Event) × List Hash)) (s : Node),
+    Fresh g s → Fresh g (lifetimes s ls) := by
+  intro ls
+  induction ls with
+  | nil => intro s h; exact h
+  | cons x rest ih =>
+    intro s h
+    obtain ⟨evs, c⟩ := x
+    simp only [lifetimes]
+    exact ih _ (restartOf_fresh (run_ok' h.nodeOk evs) (run_rooted' h.rooted h.genesis evs).2 c)
+
 end Ipv8.C17
